@@ -971,6 +971,69 @@ class SymNP:
         return (SArr(idx, int),)
 
     @staticmethod
+    def _lex_sorted(items, key):
+        """stable insertion sort by a tuple-valued key; every comparison is
+        a fork of the exploration (small inputs only)"""
+        def less(u, v):
+            for a, b in zip(key(u), key(v)):
+                if _truth(_asb(a < b)):
+                    return True
+                if _truth(_asb(b < a)):
+                    return False
+            return False
+        out = []
+        for it in items:
+            k = len(out)
+            while k > 0 and less(it, out[k - 1]):
+                k -= 1
+            out.insert(k, it)
+        return out
+
+    @staticmethod
+    def sort(a, axis=-1):
+        e = [(x,) for x in _elems(a)]
+        return SArr([t[0] for t in SymNP._lex_sorted(e, lambda t: t)],
+                    getattr(a, "dtype", float))
+
+    @staticmethod
+    def unique(a, axis=None, return_index=False):
+        """np.unique for 1-D data and for the rows (axis=0) / columns
+        (axis=1) of 2-D data: sorted, duplicates removed"""
+        if isinstance(a, SMat):
+            rows, dt = [list(r) for r in a.rows], a.dtype
+        elif isinstance(a, (list, tuple)) and a and _ndim(a[0]) >= 1:
+            rows, dt = [list(_elems(r)) for r in a], getattr(
+                a[0], "dtype", real_np.dtype(float))
+        else:
+            rows, dt, axis = [[x] for x in _elems(a)], getattr(
+                a, "dtype", real_np.dtype(float)), None
+        if axis == 1:
+            vecs = [tuple(r[j] for r in rows) for j in range(
+                len(rows[0]) if rows else 0)]
+        else:
+            vecs = [tuple(r) for r in rows]
+        srt = SymNP._lex_sorted(list(enumerate(vecs)), lambda t: t[1])
+        keep = []
+        for i, v in srt:
+            if keep and all(_truth(_asb(x == y))
+                            for x, y in zip(v, keep[-1][1])):
+                continue
+            keep.append((i, v))
+        if axis == 1:
+            res = SMat([[v[r] for _, v in keep] for r in range(len(rows))],
+                       dt)
+            res.ncols = len(keep)
+        elif axis == 0:
+            res = SMat([list(v) for _, v in keep], dt)
+            if rows:
+                res.ncols = len(rows[0])
+        else:
+            res = SArr([v[0] for _, v in keep], dt)
+        if return_index:
+            return res, SArr([i for i, _ in keep], int)
+        return res
+
+    @staticmethod
     def putmask(a, mask, values):
         # numpy: a.flat[n] = values[n % len(values)] wherever mask.flat[n]
         vl = list(values) if _ndim(values) else [values]
@@ -1182,6 +1245,8 @@ class SMat:
 
     def _rowsel(self, idx):
         n = len(self.rows)
+        if isinstance(idx, (SArr, list, real_np.ndarray)):
+            return [_conc_int(i) % n for i in idx]
         if isinstance(idx, slice):
             return list(range(*slice(_conc_int(idx.start),
                                      _conc_int(idx.stop),
